@@ -60,7 +60,7 @@ def gen_render():
     from bs4.builder._htmlparser import HTMLParserTreeBuilder
     from html.parser import HTMLParser
 
-    t = HEADER + "import BSModel.Model.Reparse\nnamespace BS.Gen.Render\nopen BS.Render\n"
+    t = HEADER + "import BSModel.Model.Reparse\nnamespace BS.Gen.C05\nopen BS.Render\n"
     # string classes
     t += "/-- `PREFIX`, `SUFFIX`, and whether `output_ready` is `PreformattedString.output_ready` -/\n"
     t += "def liveClsInfo : SCls → ClsInfo\n"
@@ -124,7 +124,7 @@ def gen_render():
     t += f"  startendChecks := {'true' if startend_checks() else 'false'}\n"
     t += f"/-- void: {' '.join(void)}; preserve: {' '.join(pres)}; containers: {' '.join(k for k, _ in cont)} -/\n"
     t += "def livePCfgDoc : Unit := ()\n"
-    t += "end BS.Gen.Render\n"
+    t += "end BS.Gen.C05\n"
     yield "Render.lean", t
 
 
